@@ -300,11 +300,11 @@ func GetCmd(c net.Conn) (string, string, bool, *pty.Winsize, error) {
 	hasSize := (t[0] & hasSizeFlag) != 0
 	l := make([]byte, 4)
 	io.ReadFull(c, l)
-	buf := make([]byte, binary.BigEndian.Uint32(l))
-	io.ReadFull(c, buf)
+	// Read the announced number of bytes without allocating them up front: the
+	// length is peer-controlled (up to 4 GiB for 4 bytes on the wire).
+	buf, _ := io.ReadAll(io.LimitReader(c, int64(binary.BigEndian.Uint32(l))))
 	io.ReadFull(c, l)
-	term := make([]byte, binary.BigEndian.Uint32(l))
-	io.ReadFull(c, term)
+	term, _ := io.ReadAll(io.LimitReader(c, int64(binary.BigEndian.Uint32(l))))
 	var size *pty.Winsize
 	if hasSize {
 		size, _ = readSize(c)
